@@ -1,1 +1,185 @@
-//! (reference for speck: to be written)
+//! Speck2n/mn after Beaulieu, Shors, Smith, Treatman-Clark, Weeks, Wingers, "The Simon and Speck Families of
+//! Lightweight Block Ciphers" (IACR ePrint 2013/404): section 4.1 (round function), 4.2 (key schedules),
+//! Table 4.1 (parameters), Appendix C (test vectors).
+//!
+//! One implementation for all word sizes n in {16, 24, 32, 48, 64}: n-bit words carried in `u64`, every
+//! operation reduced mod 2^n.  The specification is on words; a block is (x, y) and a key is
+//! (l_{m-2}, ..., l_0, k_0), written in that order in Appendix C.  On bytes this module reads the printed hex
+//! strings from left to right, i.e. each word big-endian, words in the printed order (the byte convention of
+//! /repo/speck and of its test file; the paper itself fixes no byte order).
+
+#[derive(Clone, Copy, PartialEq, Eq, Debug)]
+pub struct Params {
+    /// word size n
+    pub n: u32,
+    /// key words m
+    pub m: usize,
+    /// rounds T
+    pub t: usize,
+}
+/// Table 4.1: block size 2n, key size mn, rot alpha, rot beta, rounds T
+pub const SPECK32_64: Params = Params { n: 16, m: 4, t: 22 };
+pub const SPECK48_72: Params = Params { n: 24, m: 3, t: 22 };
+pub const SPECK48_96: Params = Params { n: 24, m: 4, t: 23 };
+pub const SPECK64_96: Params = Params { n: 32, m: 3, t: 26 };
+pub const SPECK64_128: Params = Params { n: 32, m: 4, t: 27 };
+pub const SPECK96_96: Params = Params { n: 48, m: 2, t: 28 };
+pub const SPECK96_144: Params = Params { n: 48, m: 3, t: 29 };
+pub const SPECK128_128: Params = Params { n: 64, m: 2, t: 32 };
+pub const SPECK128_192: Params = Params { n: 64, m: 3, t: 33 };
+pub const SPECK128_256: Params = Params { n: 64, m: 4, t: 34 };
+
+/// "alpha = 7 and beta = 2 if n = 16 (block size 32) and alpha = 8 and beta = 3 otherwise"
+pub const fn alpha(n: u32) -> u32 { if n == 16 { 7 } else { 8 } }
+pub const fn beta(n: u32) -> u32 { if n == 16 { 2 } else { 3 } }
+
+pub const fn mask(n: u32) -> u64 { if n >= 64 { u64::MAX } else { (1u64 << n) - 1 } }
+/// S^j: left circular shift by j bits of an n-bit word (0 < j < n)
+pub const fn rol(n: u32, x: u64, j: u32) -> u64 { (((x & mask(n)) << j) | ((x & mask(n)) >> (n - j))) & mask(n) }
+/// S^-j
+pub const fn ror(n: u32, x: u64, j: u32) -> u64 { (((x & mask(n)) >> j) | ((x & mask(n)) << (n - j))) & mask(n) }
+pub const fn add(n: u32, a: u64, b: u64) -> u64 { a.wrapping_add(b) & mask(n) }
+pub const fn sub(n: u32, a: u64, b: u64) -> u64 { a.wrapping_sub(b) & mask(n) }
+
+/// 4.1: R_k(x, y) = ((S^-alpha x + y) xor k, S^beta y xor (S^-alpha x + y) xor k)
+pub const fn round(n: u32, k: u64, x: u64, y: u64) -> (u64, u64) {
+    let nx = add(n, ror(n, x, alpha(n)), y) ^ (k & mask(n));
+    (nx, rol(n, y, beta(n)) ^ nx)
+}
+/// 4.1: R_k^-1(x, y) = (S^alpha((x xor k) - S^-beta(x xor y)), S^-beta(x xor y))
+pub const fn inv_round(n: u32, k: u64, x: u64, y: u64) -> (u64, u64) {
+    let ny = ror(n, x ^ y, beta(n));
+    (rol(n, sub(n, (x ^ k) & mask(n), ny), alpha(n)), ny)
+}
+
+/// 4.2: K = (l_{m-2}, ..., l_0, k_0) (the order of `key`);
+/// l_{i+m-1} = (k_i + S^-alpha l_i) xor i,  k_{i+1} = S^beta k_i xor l_{i+m-1};  round key i is k_i, 0 <= i < T
+pub fn key_schedule<const M: usize, const T: usize>(n: u32, key: &[u64; M]) -> [u64; T] {
+    assert!(M >= 2 && M <= 4);
+    let mut k = [0u64; T];
+    // l has T + m - 2 entries; 34 + 4 - 2 = 36 is the largest
+    let mut l = [0u64; 36];
+    k[0] = key[M - 1] & mask(n);
+    let mut i = 0;
+    while i < M - 1 {
+        l[i] = key[M - 2 - i] & mask(n);
+        i += 1;
+    }
+    let mut i = 0;
+    while i < T - 1 {
+        l[i + M - 1] = add(n, k[i], ror(n, l[i], alpha(n))) ^ (i as u64);
+        k[i + 1] = rol(n, k[i], beta(n)) ^ l[i + M - 1];
+        i += 1;
+    }
+    k
+}
+
+pub fn encrypt_with<const T: usize>(n: u32, rk: &[u64; T], x: u64, y: u64) -> (u64, u64) {
+    let (mut x, mut y) = (x & mask(n), y & mask(n));
+    let mut i = 0;
+    while i < T {
+        (x, y) = round(n, rk[i], x, y);
+        i += 1;
+    }
+    (x, y)
+}
+pub fn decrypt_with<const T: usize>(n: u32, rk: &[u64; T], x: u64, y: u64) -> (u64, u64) {
+    let (mut x, mut y) = (x & mask(n), y & mask(n));
+    let mut i = T;
+    while i > 0 {
+        i -= 1;
+        (x, y) = inv_round(n, rk[i], x, y);
+    }
+    (x, y)
+}
+
+/// big-endian n-bit word
+pub fn word_be(n: u32, b: &[u8]) -> u64 {
+    let mut x = 0u64;
+    let mut i = 0;
+    while i < (n / 8) as usize {
+        x = (x << 8) | b[i] as u64;
+        i += 1;
+    }
+    x
+}
+pub fn put_word_be(n: u32, x: u64, b: &mut [u8]) {
+    let u = (n / 8) as usize;
+    let mut i = 0;
+    while i < u {
+        b[i] = (x >> (8 * (u - 1 - i))) as u8;
+        i += 1;
+    }
+}
+/// key bytes (printed order, words big-endian) to key words (l_{m-2}, ..., l_0, k_0)
+pub fn key_words<const M: usize>(n: u32, key: &[u8]) -> [u64; M] {
+    let u = (n / 8) as usize;
+    let mut w = [0u64; M];
+    let mut i = 0;
+    while i < M {
+        w[i] = word_be(n, &key[i * u..(i + 1) * u]);
+        i += 1;
+    }
+    w
+}
+pub fn encrypt<const M: usize, const T: usize>(n: u32, key: &[u8], block: &mut [u8]) {
+    let u = (n / 8) as usize;
+    let rk = key_schedule::<M, T>(n, &key_words::<M>(n, key));
+    let (x, y) = encrypt_with::<T>(n, &rk, word_be(n, &block[..u]), word_be(n, &block[u..2 * u]));
+    put_word_be(n, x, &mut block[..u]);
+    put_word_be(n, y, &mut block[u..2 * u]);
+}
+pub fn decrypt<const M: usize, const T: usize>(n: u32, key: &[u8], block: &mut [u8]) {
+    let u = (n / 8) as usize;
+    let rk = key_schedule::<M, T>(n, &key_words::<M>(n, key));
+    let (x, y) = decrypt_with::<T>(n, &rk, word_be(n, &block[..u]), word_be(n, &block[u..2 * u]));
+    put_word_be(n, x, &mut block[..u]);
+    put_word_be(n, y, &mut block[u..2 * u]);
+}
+
+#[cfg(test)]
+mod tests {
+    use super::*;
+
+    fn check<const M: usize, const T: usize>(p: Params, key: [u64; M], pt: (u64, u64), ct: (u64, u64)) {
+        assert_eq!((p.m, p.t), (M, T));
+        let rk = key_schedule::<M, T>(p.n, &key);
+        assert_eq!(encrypt_with::<T>(p.n, &rk, pt.0, pt.1), ct);
+        assert_eq!(decrypt_with::<T>(p.n, &rk, ct.0, ct.1), pt);
+        // and through the byte interface
+        let u = (p.n / 8) as usize;
+        let mut kb = [0u8; 32];
+        for i in 0..M { put_word_be(p.n, key[i], &mut kb[i * u..(i + 1) * u]); }
+        let mut blk = [0u8; 16];
+        put_word_be(p.n, pt.0, &mut blk[..u]);
+        put_word_be(p.n, pt.1, &mut blk[u..2 * u]);
+        encrypt::<M, T>(p.n, &kb[..M * u], &mut blk[..2 * u]);
+        assert_eq!((word_be(p.n, &blk[..u]), word_be(p.n, &blk[u..2 * u])), ct);
+        decrypt::<M, T>(p.n, &kb[..M * u], &mut blk[..2 * u]);
+        assert_eq!((word_be(p.n, &blk[..u]), word_be(p.n, &blk[u..2 * u])), pt);
+    }
+
+    /// Appendix C, "Speck test vectors", as printed (Key / Plaintext / Ciphertext words)
+    #[test]
+    fn appendix_c() {
+        check::<4, 22>(SPECK32_64, [0x1918, 0x1110, 0x0908, 0x0100], (0x6574, 0x694c), (0xa868, 0x42f2));
+        check::<3, 22>(SPECK48_72, [0x121110, 0x0a0908, 0x020100], (0x20796c, 0x6c6172), (0xc049a5, 0x385adc));
+        check::<4, 23>(SPECK48_96, [0x1a1918, 0x121110, 0x0a0908, 0x020100], (0x6d2073, 0x696874), (0x735e10, 0xb6445d));
+        check::<3, 26>(SPECK64_96, [0x13121110, 0x0b0a0908, 0x03020100], (0x74614620, 0x736e6165), (0x9f7952ec, 0x4175946c));
+        check::<4, 27>(SPECK64_128, [0x1b1a1918, 0x13121110, 0x0b0a0908, 0x03020100], (0x3b726574, 0x7475432d), (0x8c6fa548, 0x454e028b));
+        check::<2, 28>(SPECK96_96, [0x0d0c0b0a0908, 0x050403020100], (0x65776f68202c, 0x656761737520), (0x9e4d09ab7178, 0x62bdde8f79aa));
+        check::<3, 29>(SPECK96_144, [0x151413121110, 0x0d0c0b0a0908, 0x050403020100], (0x656d6974206e, 0x69202c726576), (0x2bf31072228a, 0x7ae440252ee6));
+        check::<2, 32>(SPECK128_128, [0x0f0e0d0c0b0a0908, 0x0706050403020100], (0x6c61766975716520, 0x7469206564616d20), (0xa65d985179783265, 0x7860fedf5c570d18));
+        check::<3, 33>(SPECK128_192, [0x1716151413121110, 0x0f0e0d0c0b0a0908, 0x0706050403020100], (0x7261482066656968, 0x43206f7420746e65), (0x1be4cf3a13135566, 0xf9bc185de03c1886));
+        check::<4, 34>(SPECK128_256, [0x1f1e1d1c1b1a1918, 0x1716151413121110, 0x0f0e0d0c0b0a0908, 0x0706050403020100], (0x65736f6874206e49, 0x202e72656e6f6f70), (0x4109010405c0f53e, 0x4eeeb48d9c188f43));
+    }
+
+    #[test]
+    fn round_is_invertible_on_samples() {
+        for n in [16u32, 24, 32, 48, 64] {
+            let (x, y, k) = (0x0123456789abcdefu64 & mask(n), 0xfedcba9876543210u64 & mask(n), 0x5a5a5a5aa5a5a5a5u64);
+            let (a, b) = round(n, k, x, y);
+            assert_eq!(inv_round(n, k, a, b), (x, y));
+        }
+    }
+}
